@@ -169,20 +169,33 @@ def run(repo, rep):
         rq = None
     ne = 0
     if rq is not None:
+        def established(fn, node, depth=0):
+            """the content is known to have been consumed where ``node`` of ``fn`` runs: by a dominating test there, or - for a
+            helper that is only called by other functions of the module - at every one of its call sites"""
+            g = Guards(fn.node)
+            flags = {src(s.targets[0]) for s in ast.walk(fn.node) if isinstance(s, ast.Assign) and len(s.targets) == 1
+                     and '_content_consumed' in src(s.value)}
+            if any((ff.pol and (ff.text in flags or '_content_consumed' in ff.text)) or
+                   ((not ff.pol) and ff.text.startswith('not ') and (ff.text[4:] in flags or '_content_consumed' in ff.text))
+                   for ff in g.of(node)):
+                return True
+            if depth >= 3:
+                return False
+            sites = [(h, c) for h in rq.funcs.values() if h is not fn for c in ast.walk(h.node)
+                     if isinstance(c, ast.Call) and call_name(c).split('.')[-1] == fn.name]
+            # a function that is also handed around by name (registered as a printer) is entered without any call site here
+            by_name = any(isinstance(n, ast.Name) and n.id == fn.name and isinstance(n.ctx, ast.Load) and
+                          not any(isinstance(c, ast.Call) and c.func is n for c in ast.walk(rq.tree))
+                          for n in ast.walk(rq.tree))
+            return bool(sites) and not by_name and all(established(h, c, depth + 1) for h, c in sites)
         for f in rq.funcs.values():
             if not f.params or 'resp' not in f.params[0].lower():
                 continue
             resp = f.params[0]
-            g = Guards(f.node)
-            # names that hold "the content was consumed"
-            flags = {src(s.targets[0]) for s in ast.walk(f.node) if isinstance(s, ast.Assign) and len(s.targets) == 1
-                     and '_content_consumed' in src(s.value)}
             for a in ast.walk(f.node):
                 if isinstance(a, ast.Attribute) and isinstance(a.ctx, ast.Load) and src(a.value) == resp and a.attr in CONSUMING:
                     ne += 1
-                    ok = any((ff.pol and (ff.text in flags or '_content_consumed' in ff.text)) or
-                             ((not ff.pol) and ff.text.startswith('not ') and (ff.text[4:] in flags or '_content_consumed' in ff.text))
-                             for ff in g.of(a))
+                    ok = established(f, a)
                     rep.check(ok, 'C19.e', '%s:reads-body:%s' % (f.qualname, a.attr), '%s:%d' % (rq.relpath, a.lineno),
                               'read only after the content was consumed by the caller',
                               '%s reads %s.%s on a path that has not established that the body was already read: for a streamed response this '
